@@ -100,6 +100,41 @@ def apply_everywhere(rec, root, rules, rng, cap=6, check_original=False):
     return out
 
 
+def inplace_chain(rec, root, rules, rng, steps=6, big=False):
+    """Rules are in-place operations: apply a sequence of them directly to ONE evolving tree
+    object (no clone_from_root between the steps), the way the repository's own tests use
+    them.  Aliased or dangling nodes left behind by one step are then acted on by the next."""
+    cur = root.clone()
+    done = []
+    for _ in range(steps):
+        cands = []
+        for label, rule in rules:
+            try:
+                nodes = rule.find_nodes(cur)
+            except Exception:
+                continue
+            if nodes:
+                cands.append((label, rule, nodes))
+        if not cands:
+            break
+        label, rule, nodes = rng.choice(cands)
+        node = rng.choice(nodes)
+        try:
+            change = rule.apply_to(node)
+            cur = S.root_of(change.result)
+        except Exception:
+            break
+        done.append((label, getattr(node, "r_index", None)))
+        try:
+            if too_big(S.shadow(cur), big):
+                break
+        except RecursionError:
+            break
+    rec.arm("inplace-chains")
+    rec.arm("inplace-chain-steps", len(done))
+    return cur, done
+
+
 def replay_apply(w):
     """Re-drive one recorded application: witness has tree (JSON shadow), rule, node_index."""
     root = S.build(S.from_json(w["tree"]))
